@@ -1,2 +1,142 @@
-(** placeholder until the C04 theorems are in place *)
-From Texel Require Import Prelude.Base.
+(** * C04 — shape fidelity: nothing moves more than half a pixel, nothing is lost.
+
+    Clause 1 (every output vertex is the pixel centre of an input vertex): PROVENANCE -- to be cited here from
+    Snap/Proofs*.v (snap-prover's [vertex_provenance]); the index part is C03_outputs_are_hot_centroids.
+
+    Clause 2 (every point of every output edge within half a pixel, Chebyshev, of the input boundary):
+    - TRUE for routed edges, i.e. for the edges between consecutive centres of the chain an input edge is
+      replaced by (and more generally between any two centres of that chain): [C04_clause2_routed_edges],
+      [C04_clause2_routed_chain]; hence for the whole output whenever every output edge is a routed edge;
+    - FALSE in general for the faithful model and the implementation (finding F5, kmpDeduplicate invents an
+      edge): [C04_refuted], witness replayed on the real code.
+
+    Clause 3 (coverage away from the boundary) is not addressed here (decided by search only).
+
+    Vocabulary: see Properties/C01.v.  [segPt a b t] = a + t (b - a); [between c1 c2 lam] = (1 - lam) c1 + lam c2;
+    [ChebLe H p q]: |px - qx| <= H and |py - qy| <= H; [halfSpan g L] = half the pixel size of level L;
+    [ExactMiddle g L]: L above the deepest level or even resolution (centroids are exact middles). *)
+From Coq Require Import ZArith QArith List Bool.
+From Texel Require Import Prelude.Base Index.Model Index.ProofsInsert Index.ProofsLine Index.ProofsRouting
+  Snap.Model Geom.Polygon Geom.ClosedBox Snap.ProofsGeomTieRoute Snap.ProofsGeomTieRefute.
+Import ListNotations.
+Open Scope Z_scope.
+
+(** ** clause 2 for routed edges *)
+
+(** two pixels met by the closed segment a b: every point between their centroids is within half a pixel of a
+    point of a b *)
+Theorem C04_clause2_routed_edges : forall g L a b q1 q2 lam, ExactMiddle g L ->
+  Meets a b (pixExt g L q1) -> Meets a b (pixExt g L q2) -> (0 <= lam -> lam <= 1 ->
+  exists t, 0 <= t /\ t <= 1 /\
+    ChebLe (halfSpan g L) (between (pixCen g L q1) (pixCen g L q2) lam) (segPt a b t))%Q.
+Proof. exact routed_edge_close. Qed.
+Print Assumptions C04_clause2_routed_edges.
+
+(** without exact middles the bound is half a unit (0.5e-10) larger *)
+Theorem C04_clause2_routed_edges_general : forall g L a b q1 q2 lam,
+  Meets a b (pixExt g L q1) -> Meets a b (pixExt g L q2) -> (0 <= lam -> lam <= 1 ->
+  exists t, 0 <= t /\ t <= 1 /\
+    ChebLe (halfSpan g L + (1 # 2)) (between (pixCen g L q1) (pixCen g L q2) lam) (segPt a b t))%Q.
+Proof. exact routed_edge_close_general. Qed.
+Print Assumptions C04_clause2_routed_edges_general.
+
+(** for an edge a b of the indexed polygon (any grid whose stored extent covers its pixels): any two centres
+    c1 c2 that snapClosestPoints returns for it ... *)
+Theorem C04_clause2_routed_chain : forall g P hs a b L c1 c2 lam,
+  0 < gres g -> RootCovers g -> insertPolygon g P = Ok hs -> In a (concat P) -> In b (concat P) ->
+  (L <= gdeep g)%nat -> ExactMiddle g L ->
+  In c1 (snapClosestPoints g (hotLevels g hs) a b L) -> In c2 (snapClosestPoints g (hotLevels g hs) a b L) ->
+  (0 <= lam -> lam <= 1 ->
+   exists t, 0 <= t /\ t <= 1 /\ ChebLe (halfSpan g L) (between c1 c2 lam) (segPt a b t))%Q.
+Proof. exact routed_chain_close. Qed.
+Print Assumptions C04_clause2_routed_chain.
+
+(** ... in particular two consecutive ones: every edge of the routed chain is within half a pixel of the
+    polygon edge it comes from *)
+Theorem C04_clause2_routed_chain_edge : forall g P hs a b L l1 c1 c2 l2 lam,
+  0 < gres g -> RootCovers g -> insertPolygon g P = Ok hs -> In a (concat P) -> In b (concat P) ->
+  (L <= gdeep g)%nat -> ExactMiddle g L ->
+  snapClosestPoints g (hotLevels g hs) a b L = l1 ++ c1 :: c2 :: l2 ->
+  (0 <= lam -> lam <= 1 ->
+   exists t, 0 <= t /\ t <= 1 /\ ChebLe (halfSpan g L) (between c1 c2 lam) (segPt a b t))%Q.
+Proof. exact routed_chain_edge_close. Qed.
+Print Assumptions C04_clause2_routed_chain_edge.
+
+(** ** the oracle for "within h (Chebyshev) of the closed segment" is exact *)
+Theorem C04_closed_box_oracle_exact : forall a b c h,
+  seg_meets_closed_box a b c h = true <->
+  exists t : Q, (0 <= t /\ t <= 1 /\
+    - inject_Z h <= co (fst a) (fst b) t - inject_Z (fst c) /\ co (fst a) (fst b) t - inject_Z (fst c) <= inject_Z h /\
+    - inject_Z h <= co (snd a) (snd b) t - inject_Z (snd c) /\ co (snd a) (snd b) t - inject_Z (snd c) <= inject_Z h)%Q.
+Proof. exact seg_meets_closed_box_spec. Qed.
+Print Assumptions C04_closed_box_oracle_exact.
+
+(** on doubled coordinates it decides "some point of the input edge f is within half a pixel of the midpoint of
+    the output edge e" *)
+Theorem C04_edge_near_mid_exact : forall (g : grid) (L : nat) (e f : edge),
+  edge_near_mid_b (quadSpan g L) e f = true <->
+  exists t : Q, (0 <= t /\ t <= 1 /\
+    ChebLe (halfSpan g L) (between (fst e) (snd e) (1 # 2)) (segPt (fst f) (snd f) t))%Q.
+Proof. exact edge_near_mid_spec. Qed.
+Print Assumptions C04_edge_near_mid_exact.
+
+(** ** clause 2 refuted (F5).  Grid 16 x 16 px of 1.0, level 4, all flags off; the 10-vertex polygon [PC04] is
+    valid and inside the grid; the result is the triangle (6.5,5.5) (5.5,6.5) (5.5,5.5); the midpoint (6,6) of its
+    edge (6.5,5.5)-(5.5,6.5) is farther than half a pixel from every point of every input edge. *)
+Theorem C04_refuted :
+  exists g P levels cfg r L ps e,
+    valid_polygon P /\ Forall (insideGrid g) (concat P) /\
+    snapPolygon g P levels cfg = Ok r /\ In (L, ps) r /\ In e (edges ps) /\
+    forall f, In f (flat_map ring_edges P) -> forall t : Q, (0 <= t -> t <= 1 ->
+      ~ ChebLe (halfSpan g L) (between (fst e) (snd e) (1 # 2)) (segPt (fst f) (snd f) t))%Q.
+Proof. exact half_pixel_refuted. Qed.
+Print Assumptions C04_refuted.
+
+(** the same with the executable oracles only *)
+Theorem C04_refuted_witness :
+  exists g P levels cfg r L ps e,
+    valid_polygon_b P = true /\ Forall (insideGrid g) (concat P) /\
+    snapPolygon g P levels cfg = Ok r /\ In (L, ps) r /\ In e (edges ps) /\
+    forall f, In f (flat_map ring_edges P) -> edge_near_mid_b (quadSpan g L) e f = false.
+Proof. exact far_witness. Qed.
+Print Assumptions C04_refuted_witness.
+
+(** ** non-vacuity *)
+Example C04_witness :
+  valid_polygon_b PC04 = true /\
+  snapPolygon gC04 PC04 [4%nat] cfg0 = Ok [(4%nat, [[ringC04]])] /\
+  ringC04 = [(65000000000, 55000000000); (55000000000, 65000000000); (55000000000, 55000000000)] /\
+  In eC04 (edges [[ringC04]]) /\
+  padd (fst eC04) (snd eC04) = (120000000000, 120000000000) /\       (* twice the midpoint (6, 6) *)
+  quadSpan gC04 4 = 10000000000 /\
+  length (flat_map ring_edges PC04) = 10%nat /\
+  forallb (fun f => negb (edge_near_mid_b (quadSpan gC04 4) eC04 f)) (flat_map ring_edges PC04) = true /\
+  (* while the other two output edges are fine at their midpoints *)
+  existsb (edge_near_mid_b (quadSpan gC04 4) ((55000000000, 65000000000), (55000000000, 55000000000))) (flat_map ring_edges PC04) = true /\
+  existsb (edge_near_mid_b (quadSpan gC04 4) ((55000000000, 55000000000), (65000000000, 55000000000))) (flat_map ring_edges PC04) = true.
+Proof.
+  split; [exact C04_witness_valid |]. split; [exact C04_witness_result |].
+  vm_compute. repeat split; try reflexivity. left. reflexivity.
+Qed.
+
+(** the closed-box oracle on small values: touching the border of the square counts, beyond it does not *)
+Example C04_closed_box_examples :
+  seg_meets_closed_box (0, 0) (10, 0) (5, 3) 3 = true /\
+  seg_meets_closed_box (0, 0) (10, 0) (5, 4) 3 = false /\
+  seg_meets_closed_box (0, 0) (2, 2) (5, 5) 3 = true /\
+  seg_meets_closed_box (0, 0) (1, 1) (5, 5) 3 = false /\
+  seg_meets_closed_box (7, 7) (7, 7) (5, 5) 2 = true.
+Proof. vm_compute. repeat split; reflexivity. Qed.
+
+(** the hypotheses of the routed-chain theorem hold on a concrete polygon edge (C02 example) *)
+Example C04_routed_chain_example :
+  let g := mkGrid (mkExtent 0 0 160000000000 160000000000) 10000000000 4 in
+  let P := [[(70000000000, 55000000000); (50000000000, 65000000000); (65000000000, 65000000000); (55000000000, 55000000000)]] in
+  0 < gres g /\ RootCovers g /\ ExactMiddle g 4 /\
+  insertPolygon g P = Ok [(7, 5); (5, 6); (6, 6); (5, 5)] /\
+  snapClosestPoints g (hotLevels g [(7, 5); (5, 6); (6, 6); (5, 5)]) (70000000000, 55000000000) (50000000000, 65000000000) 4
+    = [(75000000000, 55000000000); (65000000000, 65000000000); (55000000000, 65000000000)].
+Proof.
+  cbv zeta. split; [reflexivity |]. split; [vm_compute; repeat split; discriminate |].
+  split; [right; reflexivity |]. vm_compute. split; reflexivity.
+Qed.
